@@ -9,6 +9,7 @@ Line protocol of the C13 driver.
   lmp  <hex content> <K> <n c₁ … cₙ> × K                      polls of the lammpstrj reader model
   xspec <m len₁ … len_m> <K> <n c₁ … cₙ> × K                  `exactStages` on frame indices
   lspec <m len₁ … len_m> <K> <n c₁ … cₙ> × K                  `lmpStages` on frame indices
+  trr  <2m h₁ d₁ … h_m d_m> <n size₁ … sizeₙ>                 `trrRun` events (r:off:len:size, y:k, w)
 
 Answer: the K results joined by " # ".  One result = stages joined by " | "; one stage =
 `<new position>:<frames joined by ;>`; a raised exception ends the result with `!<kind>`.
@@ -103,6 +104,21 @@ def handle (toks : List String) : String :=
         " # ".intercalate (seqs.map (fun cuts => showIdx (lmpStages lens (List.range lens.length) cuts 0 false)))
       | none => "bad-op"
     | _ => "bad-op"
+  | "trr" :: rest =>
+    match takeList parseNat? rest with
+    | some (hd, rest) =>
+      match takeList parseNat? rest with
+      | some (sizes, []) =>
+        let rec mk : List Nat → List TFrame
+          | h :: d :: t => ⟨h, d⟩ :: mk t
+          | _ => []
+        let evs := trrRun (mk hd) sizes tInit
+        " ".intercalate (evs.map (fun e => match e with
+          | .read o l s => s!"r:{o}:{l}:{s}"
+          | .yield k => s!"y:{k}"
+          | .wait => "w"))
+      | _ => "bad-op"
+    | none => "bad-op"
   | _ => "bad-op"
 
 def main : IO Unit := mainWith handle
